@@ -518,6 +518,10 @@ def draw_configs(rep, n):
     return pick
 
 
+REQUIRED_KINDS = {'T', 'Name', 'Constant', 'Call', 'Attribute', 'Subscript', 'Slice', 'BinOp', 'UnaryOp', 'Compare',
+                  'Tuple', 'List', 'Set', 'Dict', 'BoolOp', 'IfExp', 'Lambda', 'ListComp', 'Assign', 'AugAssign',
+                  'Expr', 'Return', 'Raise', 'Delete', 'If', 'For', 'While', 'With', 'Try'}
+
 FIXED_CONFIGS = [
     # the examples of the anf.transform docstring and of anf_test.py
     [dict(p='ANY', f='ANY', c='expr', a='REPLACE')],
@@ -546,6 +550,7 @@ def run(rep):
     found = {}
     counts = dict(rejected=0, transformed=0, cases=0)
     samples = []
+    expects = {}
     chunk = 3000
     stride = 1 if tier == 1 else 4
     for j in range(0, len(recs), chunk):
@@ -566,6 +571,8 @@ def run(rep):
             rep.add_tlc(r2)
         for c in cases:
             judge(c)
+            if c.verdict is not None:
+                expects[c.verdict['ex']] = expects.get(c.verdict['ex'], 0) + 1
             counts['rejected' if c.rejected is not None else 'transformed'] += 1
             counts['cases'] += 1
             rep.validated()
@@ -579,6 +586,12 @@ def run(rep):
         if j == 0:
             samples = [dict(source=c.src, output=c.text, predicted=c.runs[0]) for c in cases[:3]]
     rep.set('node_kinds_covered', sorted(kinds))
+    rep.set('rejection_expectations', expects)
+    # vacuity: every construct of the class and every rejection expectation must have been exercised
+    missing = REQUIRED_KINDS - kinds
+    if missing or any(expects.get(x, 0) == 0 for x in ('accept', 'reject', 'either')):
+        raise common.MachineryError('vacuous run: node kinds never generated %s, expectations %s' % (
+            sorted(missing), expects))
     rep.set('executions_compared', execs)
     rep.set('outcomes', counts)
     rep.set('signatures_seen', {s: n for s, (_, _, n) in sorted(found.items())})
